@@ -189,6 +189,47 @@ func (g *Gen) CoroutineProgram() *Chunk {
 				CallSN("emit", Str("running"), co("running")))
 		}
 	}
+	// a coroutine created inside another one, used after its creator has
+	// finished (returned / failed) or while the creator is suspended
+	if g.R.Intn(3) == 0 {
+		inner, outer := g.fresh("inner"), g.fresh("outer")
+		var how Stmt = Return(Num(1))
+		switch g.R.Intn(3) {
+		case 0:
+			how = CallSN("error", Str("Eouter"))
+			g.cover("co:orphan-creator-failed")
+		case 1:
+			how = &SCall{Call: co("yield", Num(2))}
+			g.cover("co:orphan-creator-suspended")
+		default:
+			g.cover("co:orphan-creator-returned")
+		}
+		mk := "create"
+		if g.R.Intn(3) == 0 {
+			mk = "wrap"
+		}
+		body := Fn([]string{"a"}, false, Blk(
+			CallSN("emit", Str("inner:start"), N("a")),
+			Local1("b", co("yield", Bin("+", N("a"), Num(1)))),
+			CallSN("emit", Str("inner:resumed"), N("b")),
+			Return(Bin("*", N("b"), Num(2)))))
+		b.Stmts = append(b.Stmts,
+			&SLocal{Names: []string{inner}},
+			Local1(outer, co("create", Fn(nil, false, Blk(Assign1(N(inner), co(mk, body)), how)))),
+			CallSN("emit", Str("outer"), co("resume", N(outer))),
+			CallSN("emit", Str("outer-status"), co("status", N(outer))))
+		if mk == "wrap" {
+			b.Stmts = append(b.Stmts,
+				CallSN("emit", Str("inner1"), CallN("pcall", N(inner), Num(10))),
+				CallSN("emit", Str("inner2"), CallN("pcall", N(inner), Num(5))),
+				CallSN("emit", Str("inner3"), &EParen{X: CallN("pcall", N(inner), Num(1))}))
+		} else {
+			b.Stmts = append(b.Stmts,
+				CallSN("emit", Str("inner1"), co("resume", N(inner), Num(10))),
+				CallSN("emit", Str("inner2"), co("resume", N(inner), Num(5))),
+				CallSN("emit", Str("inner-status"), co("status", N(inner))))
+		}
+	}
 	// drain: resume everything until dead, bounded
 	for _, c := range names {
 		iv := g.fresh("i")
